@@ -941,12 +941,16 @@ static std::string run_case(const std::string &line)
             QM a, l;
             bool rational = to_q(L, l);
             bool symbolic = false;
-            if (!rational) {
-                // a symbolic square root appeared: outside the modelled fragment
+            {
+                // a square root that is not an exact rational appeared (symbolic, or imaginary
+                // for a negative radicand): outside the modelled fragment
                 vec_basic v = L.as_vec_basic();
                 for (auto &e : v)
-                    if (!e.is_null() && !is_a_Number(*e))
+                    if (!e.is_null() && !(is_a<Integer>(*e) || is_a<Rational>(*e) || is_a<NaN>(*e)
+                                          || eq(*e, *ComplexInf)))
                         symbolic = true;
+                if (symbolic)
+                    rational = false;
             }
             o.field(symbolic ? "EXN:96" : show_m(L));
             if (to_q(A, a) && q_is_symmetric(a) && rational) {
